@@ -15,8 +15,16 @@ Inductive op := OPause (c : nat) | OResume (c : nat) | OStop (w : nat) | OStopAl
    quiescence safety deadline expired) *)
 Record obs := Ob { o_ctl : list nat; o_paused : bool; o_ws : list nat; o_subs : nat; o_pcl : nat; o_bad : bool }.
 
-(* rounds: the ops issued together, and the observation once nothing moves *)
-Record pcase := PC { p_nw : nat; p_nc : nat; p_rounds : list (list op * obs) }.
+(* links (u, d, k): worker u passes its items on to worker d through a channel of capacity k;
+   rounds: the ops issued together, and the observation once nothing moves *)
+Record pcase := PC { p_nw : nat; p_nc : nat; p_links : list (nat * nat * nat);
+                     p_rounds : list (list op * obs) }.
+
+Definition lkf (links : list (nat * nat * nat)) (w : nat) : option nat :=
+  match find (fun l => Nat.eqb (fst (fst l)) w) links with
+  | Some l => Some (snd (fst l))
+  | None => None
+  end.
 
 (* ---------------- model side ---------------- *)
 Definition try_step (v : variant) (s : state) (l : label) : state :=
@@ -32,8 +40,27 @@ Definition apply_op (v : variant) (s : state) (o : op) : state :=
   | ORelease w => try_step v s (LDone w)
   end.
 
-(* every system step except the end of an item, which is the driver's to decide *)
-Definition settle (v : variant) (s : state) : state := quiesce_h v (S (mu s)) s.
+(* a worker that comes back to its main select with a pause token (or a cancelled context) AND an
+   upstream worker ready to hand it an item: select takes either arm *)
+Definition amb_link (s : state) : bool :=
+  existsb (fun u => match link s u with
+                    | Some d => wpc_eqb (w_pc (wk s u)) WBusy && wpc_eqb (w_pc (wk s d)) WRun &&
+                                (w_tok (wk s d) || w_stop (wk s d))
+                    | None => false
+                    end) (seq 0 (nw s)).
+
+(* every system step except the end of an item that goes to the driver, which is the driver's to
+   decide; the flag reports that an ambiguous state was met *)
+Fixpoint settle_a (v : variant) (fuel : nat) (s : state) : state * bool :=
+  match fuel with
+  | 0 => (s, false)
+  | S k => if amb_link s then (s, true)
+           else match pick_h v s with
+                | Some l => match step v s l with Some s' => settle_a v k s' | None => (s, false) end
+                | None => (s, false)
+                end
+  end.
+Definition settle (v : variant) (s : state) : state * bool := settle_a v (S (mu s) * S (nw s)) s.
 
 Definition wcode (x : wst) : nat :=
   match w_pc x with WRun => 0 | WAck => 1 | WGone => 2 | WBusy => 4 | _ => 3 end.
@@ -78,12 +105,15 @@ Fixpoint diff_rounds (v : variant) (s : state) (rs : list (list op * obs)) : boo
   | (ops, o) :: r =>
       let s0 := fold_left (apply_op v) ops s in
       if ambiguous s0 then false
-      else let s' := settle v s0 in
-           if obs_eqb (project s') o then diff_rounds v s' r else true
+      else let (s', amb) := settle v s0 in
+           if amb then false
+           else if obs_eqb (project s') o then diff_rounds v s' r else true
   end.
 
+(* exact prediction only for unbuffered links (the model's hand-over is a rendezvous) *)
 Definition diff_case_v (v : variant) (c : pcase) : bool :=
-  diff_rounds v (init (p_nw c) (p_nc c)) (p_rounds c).
+  forallb (fun l : nat * nat * nat => Nat.eqb (snd l) 0) (p_links c) &&
+  diff_rounds v (init_l (p_nw c) (p_nc c) (lkf (p_links c))) (p_rounds c).
 
 (* sequential driver: the model (of the repaired code) predicts every observation *)
 Definition diffs (l : list pcase) := bad_idx (diff_case_v fixed) l.
@@ -108,8 +138,38 @@ Definition is_pause (o : op) := match o with OPause _ => true | _ => false end.
 Definition is_resume (o : op) := match o with OResume _ => true | _ => false end.
 
 Definition is_zero (n : nat) : bool := Nat.eqb n 0.
-(* no worker is inside an item: the observation is one of a fully quiescent process *)
-Definition full (o : obs) : bool := negb (existsb (Nat.eqb 4) (o_ws o)).
+Definition code (o : obs) (w : nat) : nat := nth w (o_ws o) 3.
+
+(* worker w is inside an item that only the driver (or nobody: the receiver has left) can take:
+   the observation is then not one of a process that has come to rest by itself *)
+Fixpoint held (lk : nat -> option nat) (o : obs) (fuel w : nat) : bool :=
+  match fuel with
+  | 0 => false
+  | S k => Nat.eqb (code o w) 4 &&
+           match lk w with
+           | None => true
+           | Some d => Nat.eqb (code o d) 2 || held lk o k d
+           end
+  end.
+(* worker w is inside an item and waits (through a chain of hand-overs) for a worker that has
+   acknowledged the pause: the state of an upstream stage while the pipeline is paused *)
+Fixpoint waitp (lk : nat -> option nat) (o : obs) (fuel w : nat) : bool :=
+  match fuel with
+  | 0 => false
+  | S k => Nat.eqb (code o w) 4 &&
+           match lk w with
+           | None => false
+           | Some d => Nat.eqb (code o d) 1 || waitp lk o k d
+           end
+  end.
+Definition full (lk : nat -> option nat) (o : obs) : bool :=
+  let n := length (o_ws o) in negb (existsb (held lk o (S n)) (seq 0 n)).
+(* the live workers are where the pause flag says *)
+Definition follow (lk : nat -> option nat) (canc : list bool) (o : obs) : bool :=
+  let n := length (o_ws o) in
+  forallb (fun w => if nth w canc false then true
+                    else if o_paused o then Nat.eqb (code o w) 1 || waitp lk o (S n) w
+                    else Nat.eqb (code o w) 0) (seq 0 n).
 
 (* generic fold over the rounds with the set of cancelled workers *)
 Fixpoint all_rounds (f : list bool -> list op -> obs -> bool) (canc : list bool)
@@ -123,11 +183,12 @@ Fixpoint all_rounds (f : list bool -> list op -> obs -> bool) (canc : list bool)
 Definition over_rounds (f : pcase -> list bool -> list op -> obs -> bool) (c : pcase) : bool :=
   all_rounds (f c) (repeat false (p_nw c)) (p_rounds c).
 
-(* 0 calls_complete: once nothing moves (and no worker is still inside an item), no Pause / Resume
-   call is in progress *)
+(* 0 calls_complete: once nothing moves (and no worker is inside an item that only the driver can
+   take), no Pause / Resume call is in progress *)
 Definition mon_calls_return : pcase -> bool :=
   over_rounds (fun (c : pcase) _ _ (o : obs) =>
-    Nat.eqb (length (o_ctl o)) (p_nc c) && (negb (full o) || forallb is_zero (o_ctl o))).
+    Nat.eqb (length (o_ctl o)) (p_nc c) &&
+    (negb (full (lkf (p_links c)) o) || forallb is_zero (o_ctl o))).
 
 (* 1 no panic (send on a closed channel), quiescence reached *)
 Definition mon_no_panic : pcase -> bool := over_rounds (fun _ _ _ (o : obs) => negb (o_bad o)).
@@ -140,26 +201,26 @@ Definition mon_stopped_gone : pcase -> bool :=
     Nat.eqb (o_subs o) (length (filter negb canc))).
 
 (* 3 paused_takes_no_work / resume_wakes_all at quiescence: a live worker is in the acknowledging
-   send (takes no work) iff the manager is paused *)
+   send (or, upstream of one, stuck in its hand-over) iff the manager is paused; it is in its main
+   select iff not *)
 Definition mon_follow_flag : pcase -> bool :=
-  over_rounds (fun _ canc _ (o : obs) =>
-    negb (full o) ||
-    forallb (fun kw : bool * nat => if fst kw then true else Nat.eqb (snd kw) (if o_paused o then 1 else 0))
-            (combine canc (o_ws o))).
+  over_rounds (fun (c : pcase) canc _ (o : obs) =>
+    negb (full (lkf (p_links c)) o) || follow (lkf (p_links c)) canc o).
 
 (* 4 the calls take effect: when no call was in progress before the round, then after a round of
    Pause calls only the manager is paused, after a round of Resume calls only it is not
    (pause_reaches_all / resume_wakes_all) *)
-Fixpoint effect (prev : list nat) (rs : list (list op * obs)) : bool :=
+Fixpoint effect (lk : nat -> option nat) (prev : list nat) (rs : list (list op * obs)) : bool :=
   match rs with
   | [] => true
   | (ops, o) :: r =>
       (let np := existsb is_pause ops in let nr := existsb is_resume ops in
-       if negb (forallb is_zero prev) || negb (full o) || negb (forallb is_zero (o_ctl o)) then true
+       if negb (forallb is_zero prev) || negb (full lk o) || negb (forallb is_zero (o_ctl o)) then true
        else if np && negb nr then o_paused o else if nr && negb np then negb (o_paused o) else true)
-      && effect (o_ctl o) r
+      && effect lk (o_ctl o) r
   end.
-Definition mon_call_effect (c : pcase) : bool := effect (repeat 0 (p_nc c)) (p_rounds c).
+Definition mon_call_effect (c : pcase) : bool :=
+  effect (lkf (p_links c)) (repeat 0 (p_nc c)) (p_rounds c).
 
 (* 5 no channel that a Pause may still be about to send on is ever closed (no_panic's reason) *)
 Definition mon_pausech_open : pcase -> bool := over_rounds (fun _ _ _ (o : obs) => Nat.eqb (o_pcl o) 0).
@@ -172,7 +233,8 @@ Definition mon_pausech_open : pcase -> bool := over_rounds (fun _ _ _ (o : obs) 
 Definition pause_by_idle (prev : list nat) (o : op) : bool :=
   match o with OPause c => Nat.eqb (nth c prev 1) 0 | _ => false end.
 
-Fixpoint sticks (canc : list bool) (prev : list nat) (armed : bool) (rs : list (list op * obs)) : bool :=
+Fixpoint sticks (lk : nat -> option nat) (canc : list bool) (prev : list nat) (armed : bool)
+         (rs : list (list op * obs)) : bool :=
   match rs with
   | [] => true
   | (ops, o) :: r =>
@@ -180,15 +242,14 @@ Fixpoint sticks (canc : list bool) (prev : list nat) (armed : bool) (rs : list (
       let armed' :=
         if existsb is_resume ops then false
         else armed || (existsb (pause_by_idle prev) ops && forallb (fun p => Nat.leb p 1) prev) in
-      (if armed' && full o && forallb is_zero (o_ctl o)
-       then o_paused o &&
-            forallb (fun kw : bool * nat => if fst kw then true else Nat.eqb (snd kw) 1) (combine canc' (o_ws o))
+      (if armed' && full lk o && forallb is_zero (o_ctl o)
+       then o_paused o && follow lk canc' o
        else true)
-      && sticks canc' (o_ctl o) armed' r
+      && sticks lk canc' (o_ctl o) armed' r
   end.
 
 Definition mon_pause_sticks (c : pcase) : bool :=
-  sticks (repeat false (p_nw c)) (repeat 0 (p_nc c)) false (p_rounds c).
+  sticks (lkf (p_links c)) (repeat false (p_nw c)) (repeat 0 (p_nc c)) false (p_rounds c).
 
 Definition mons (l : list pcase) :=
   mon_idx [mon_calls_return; mon_no_panic; mon_stopped_gone; mon_follow_flag; mon_call_effect;
